@@ -66,12 +66,15 @@ class SendDataInChunks(Contract):
         return (g.nx >= old.g.nx and prefix_of(old.g.log, g.log) and len(g.log) == len(old.g.log) + (g.nx - old.g.nx)
                 and g.conn == old.g.conn and g.disc == old.g.disc and implies(finished, g.nx >= old.g.nx + 1)
                 and implies(g.nx >= old.g.nx + 1, g.last_cmd == command and g.last_op == operation))
-    def inv_counters(offset, total_bytes_sent, bytes_requested):
-        return total_bytes_sent == offset and 0 <= bytes_requested and bytes_requested <= 255
-    def inv_finished(finished, response, operation, next_operations, expect_full_data, total_bytes_sent, data,
-                     command, g):
+    def inv_counters(offset, bytes_requested, total_bytes_sent=None):
+        # total_bytes_sent is an incidental counter of the present code: constrained only while it exists
+        return (0 <= bytes_requested and bytes_requested <= 255
+                and (is_none(total_bytes_sent) or total_bytes_sent == offset))
+    def inv_finished(finished, response, operation, next_operations, expect_full_data, data, command, g, old):
+        # (stated over what the device holds, not over the function's own counters)
+        k = key_of(command, operation)
         return implies(finished, response[2] != operation and response[2] in next_operations
-                       and implies(expect_full_data, total_bytes_sent >= len(data))
+                       and implies(expect_full_data, len(sel(g.stream, k)) - len(sel(old.g.stream, k)) >= len(data))
                        and classify(g) == K_OK and response == g.last_resp and len(response) >= 3
                        and implies(chunk_op(command, response[2]), len(response) >= 4))
     invariants = {0: [inv_stream, inv_frame, inv_counters, inv_finished]}
